@@ -13,8 +13,8 @@ theorem applyOverlaysF_eq (k : Nat) (B : Mode → Color → Color → Color) (V 
   | nil => rfl
   | cons e es ih => simp only [applyOverlaysF, applyOverlays, fzState_eq]; exact ih _
 
-theorem applyStrokeFxF_eq (k : Nat) (B : Mode → Color → Color → Color) (V bbox : Rect) (x y : Int) (st : PState)
-    (ss : List StrokeFx) : applyStrokeFxF k B V bbox x y st ss = applyStrokeFx B V bbox x y st ss := by
+theorem applyStrokeFxF_eq (k : Nat) (B : Mode → Color → Color → Color) (V bbox : Rect) (x y : Int) (lop : Rat) (st : PState)
+    (ss : List StrokeFx) : applyStrokeFxF k B V bbox x y lop st ss = applyStrokeFx B V bbox x y lop st ss := by
   induction ss generalizing st with
   | nil => rfl
   | cons s ss ih => simp only [applyStrokeFxF, applyStrokeFx, fzState_eq]; exact ih _
